@@ -88,6 +88,9 @@ func (c *CodecConn[Enc, Dec]) ReadNext() (Dec, error) {
 func (c *CodecConn[Enc, Dec]) WriteNext(item Enc) (n int, err error) {
 	err = c.codec.Encode(item, c.dst)
 	if err == nil {
+		// Make whatever the encoder wrote but did not commit visible to the flush below.
+		c.dst.Commit(c.dst.WriteLen())
+
 		var nn int64
 		nn, err = c.dst.WriteTo(c.stream)
 		n = int(nn)
@@ -98,6 +101,9 @@ func (c *CodecConn[Enc, Dec]) WriteNext(item Enc) (n int, err error) {
 func (c *CodecConn[Enc, Dec]) AsyncWriteNext(item Enc, cb AsyncCallback) {
 	err := c.codec.Encode(item, c.dst)
 	if err == nil {
+		// Make whatever the encoder wrote but did not commit visible to the flush below.
+		c.dst.Commit(c.dst.WriteLen())
+
 		c.dst.AsyncWriteTo(c.stream, cb)
 	} else {
 		cb(err, 0)
